@@ -169,16 +169,18 @@ PROPS["C08"]["verus"]["serial"] = SERIAL_FNS
 
 PROPS["C10"]["verus"]["readers"] = ["PropertyValue::read", "PropertySet::read", "PropertyValue::minimum_version", "Timestamp::read_from"]
 PROPS["C19"]["verus"]["queryfmt"] = ["Delete::fmt", "Insert::fmt", "Update::fmt", "Join::fmt", "Select::format_for_join", "Select::fmt"]
-PROPS["C10"]["verus"]["serial"] = ["PropertyValue::encoded_size_including_padding", "PropertyValue::write", "Timestamp::write_to", "lemma_pad"]
+PROPS["C10"]["verus"]["serial"] = ["PropertyValue::encoded_size_including_padding", "PropertyValue::write", "Timestamp::write_to", "lemma_pad",
+                                    "PropertySet::write", "PropertyValue::minimum_version", "PropertyFormatVersion::version_number",
+                                    "lemma_off_aligned", "lemma_size_nonneg", "lemma_size_mono", "lemma_append_keeps", "lemma_prefix_keeps", "vx_btree_iter"]
 
 PROPS["C15"] = {
     "level": "proof",
-    "verus": {"serial": ["Table::write_rows", "StringPool::write_pool", "StringPool::write_data",
-                         "ColumnType::write_value", "StringRef::write"]},
+    "verus": {"serial": ["Table::write_rows", "StringPool::write_pool", "StringPool::write_data", "PropertySet::write",
+                         "PropertyValue::write", "ColumnType::write_value", "StringRef::write"]},
     "assumptions": [
         "the writer is modelled by VSink (prelude/sink.rs): bytes accepted vs bytes known committed; only a successful flush() commits; any call may fail -- this is what the documented Write contract lets generic code assume about cfb::Stream, whose Drop discards the result of its final flush",
-        "decided: each of the three serializers returns Ok only after a successful flush that follows its last write, and propagates every writer error it sees",
-        "NOT covered: PropertySet::write (BTreeMap iteration + enumerate), FinishImpl::finish / Package::flush / into_inner propagation, user-held StreamWriters, read/seek faults, the cfb container itself",
+        "decided: each of the four serializers (write_rows, write_pool, write_data, PropertySet::write) returns Ok only after a successful flush that follows its last write, and propagates every writer error it sees",
+        "NOT covered: FinishImpl::finish / Package::flush / into_inner propagation, user-held StreamWriters, read/seek faults, the cfb container itself",
     ],
 }
 
